@@ -1,19 +1,51 @@
-"""Generates /verif/MANIFEST.json from the table below: python -m mc.manifest"""
+"""Generates /verif/MANIFEST.json: python -m mc.manifest
+
+A check is claimed when it is listed in CLAIMED; the level text is the property
+module's own docstring (space + oracle) and the level note its ASSUMPTIONS."""
+import ast
 import json
 import os
+import re
 
 VERIF = os.path.dirname(os.path.dirname(os.path.abspath(__file__)))
 
-CHECKS = {
-    'C01': dict(
-        category='model_checking',
-        technique='explicit-state bounded exhaustive enumeration of type terms x boundary values x codecs on the real implementation (stateless exploration, round-trip oracle, deterministic step budget)',
-        text='Every type term of the layered program space (L0 leaf alphabet, L0c leaf-in-context, L1 constructors with <=2 deviations, L2 nesting pairs, recursive/shared families) under the listed tagging environments, every boundary value (deviation-bounded products), all five binary codecs and numeric_enums are enumerated completely and round-tripped on the implementation; nothing is sampled. Holds within the stated bounds only.',
-        note='Trusts: my term renderer and abstract-value equality (mc/terms.py, mc/absval.py); the reduced member alphabet inside constructors; CPython sys.monitoring for the step budget. Known genuine defects are listed in known_findings.json and matched on shrunk minimal cases.',
-        design_ref='DESIGN.md 2 C01'),
+TECHNIQUE = {
+    'C01': 'stateless bounded exhaustive enumeration of type terms x boundary values x codecs on the real implementation; round-trip / re-encode oracle; deterministic step budget',
+    'C02': 'bounded exhaustive enumeration of type terms x values x {jer,xer} x indents on the implementation; independent strict JSON / XML readers and exact round trip as oracle',
+    'C03': 'bounded exhaustive enumeration of terms x values; independent executable X.690 DER model (mc/ref_der) replayed against the implementation on every case, independent TLV re-reader, asn1crypto second opinion',
+    'C04': 'exhaustive enumeration of all <= R-rewrite BER re-serialisations (independent TLV library) of every explored encoding; every variant replayed on the real decoder',
+    'C05': 'bounded exhaustive enumeration of terms x values; independent executable X.691 model (encoder + decoder, aligned and unaligned) compared bit-for-bit with the implementation on every case',
+    'C06': 'bounded exhaustive enumeration of terms x values; independent executable X.696 model (encoder + acceptance decoder) compared byte-for-byte with the implementation on every case',
+    'C07': 'explicit-state exploration of the version graph (states = type terms, transitions = legal extension steps, <= S steps) x all values x 7 codecs; projection model pi checked on every (old,new) pair',
+    'C08': 'fault enumeration: all short byte strings and all <= E-edit variants of valid encodings, every one decoded under a deterministic step / memory / result-size budget, sentinel battery for statelessness',
+    'C09': 'bounded exhaustive enumeration of C-subset modules x all values x all buffer sizes x all <= E-edit inputs; generated C compiled (gcc -std=c99, clang ASan+UBSan) and every trace compared with the Python UPER codec',
+    'C10': 'bounded exhaustive enumeration of C-subset modules x all values x all buffer sizes x all <= E-edit inputs x V1/V2 pairs; generated C compiled (gcc -std=c99, clang ASan+UBSan) and every trace compared with the Python OER codec',
+    'C11': 'bounded exhaustive enumeration of constrained positions x boundary candidates x codecs x encode/decode path; independent constraint interpreter as model',
+    'C12': 'bounded exhaustive enumeration of (term, value, component position, corruption kind, codec); error-class and dotted-path model (mc/ref_paths)',
+    'C13': 'explicit-state BFS over compile_dict / pformat-eval / deepcopy histories on the real parsed dictionary, canonical-state deduplication, to fixpoint; differential oracle against a fresh compile on every transition',
+    'C14': 'exhaustive enumeration of layout insertions at every token boundary (independent X.680 lexer as the model of what may not change); every relayout parsed by the implementation',
+    'C15': 'bounded exhaustive enumeration of (message, tail, every prefix length) x {ber,der}; independent TLV header model',
+    'C16': 'fault enumeration: every strict byte prefix of every explored encoding x 5 codecs decoded on the implementation; must raise the library decode error',
+    'C17': 'explicit-state BFS over compile_files histories on a real cache directory (canonical directory dump as state); exhaustive SIGKILL crash-point enumeration via strace fault injection; exhaustive single-byte / truncation damage enumeration; uncached compile in a fresh process as model',
+    'C18': 'explicit-state BFS over operation histories on one compiled Specification (state = structural graph hash) to fixpoint; stateless exploration of all thread schedules with <= P preemptions under a controlled baton scheduler (sys.settrace) on the real code',
+    'C19': 'explicit-state BFS over the arrangement graph of a specification (swap, move+IMPORT, inline, extract, fold); differential behaviour signature over 8 codecs on every edge',
+    'C20': 'bounded exhaustive enumeration of terms x values x indents; independent RFC 3641 reader as model; injectivity check of text -> value over each enumerated domain',
 }
 
-NOT_YET = {}
+CATEGORY = {'C08': 'fault_enumeration', 'C16': 'fault_enumeration'}
+
+# properties claimed (each has been run to exit 0 on the unchanged tree)
+CLAIMED = ['C01', 'C02', 'C03', 'C05', 'C06', 'C07', 'C09', 'C10', 'C12', 'C14', 'C15', 'C16', 'C20']
+
+NOT_CLAIMED_REASON = {}
+
+
+def _module_facts(pid):
+    path = os.path.join(VERIF, 'mc', 'props', pid.lower() + '.py')
+    tree = ast.parse(open(path).read())
+    doc = ast.get_docstring(tree) or ''
+    doc = re.sub(r'\s+', ' ', doc).strip()
+    return doc
 
 
 def main():
@@ -22,8 +54,9 @@ def main():
     na = []
     for p in props:
         pid = p['id']
-        if pid in CHECKS:
-            c = CHECKS[pid]
+        if pid in CLAIMED:
+            doc = _module_facts(pid)
+            cat = CATEGORY.get(pid, 'model_checking')
             checks.append({
                 'property_id': pid,
                 'quick_cmd': './check %s --tier quick' % pid,
@@ -31,32 +64,49 @@ def main():
                 'evidence_file': 'evidence/%s.json' % pid,
                 'replay_cmd_template': './check %s --replay {path}' % pid,
                 'engine': 'mc',
-                'level_claimed': {'category': c['category'], 'text': c['text'], 'design_ref': c['design_ref']},
-                'level_note': c['note'],
-                'technique': c['technique'],
+                'level_claimed': {
+                    'category': cat,
+                    'text': doc + ' Everything inside the stated bounds is enumerated completely (nothing is '
+                                  'sampled; VERIF_SEED only rotates the work order); the claim holds within those '
+                                  'bounds only. The bounds completed and the measured counts are in the evidence file.',
+                    'design_ref': 'DESIGN.md section 2 %s, section 7' % pid},
+                'level_note': 'Trusted base and assumptions are listed under "assumptions" in evidence/%s.json (written '
+                              'by the check from mc/props/%s.py ASSUMPTIONS): the term renderer / value domains '
+                              '(mc/terms.py, mc/values.py), the reference model or differential oracle named in the '
+                              'text, CPython sys.monitoring for the deterministic step budget. Genuine defects of '
+                              'asn1tools found by this check are listed in known/%s.json (narrow predicates over shrunk '
+                              'minimal cases, printed as KNOWN-FINDING lines); repaired ones under "fixed" in '
+                              'known_findings.json.' % (pid, pid.lower(), pid.lower()),
+                'technique': TECHNIQUE[pid],
             })
         else:
             na.append({'property_id': pid,
-                       'reason': NOT_YET.get(pid, 'check not built yet in this round (planned: bounded exhaustive '
-                                                  'exploration per DESIGN.md section 2); not claimed until it runs')})
+                       'reason': NOT_CLAIMED_REASON.get(pid, 'check exists (mc/props/%s.py) but is not yet silent and '
+                                                             'fast on the unchanged tree; not claimed until it is'
+                                                        % pid.lower())})
     m = {
         'version': 1,
         'setup_cmd': './setup.sh',
         'hooks': {
             'guard': 'ASN1TOOLS_VERIF',
             'enable': 'no source hooks are needed: checks import asn1tools from /repo\'s working tree (VERIF_REPO) and '
-                      'observe it through the public API; ASN1TOOLS_VERIF=1 is exported by ./check for future hooks',
+                      'observe it through the public API; nondeterminism is owned from outside (sys.monitoring step '
+                      'budget, sys.settrace baton scheduler, strace fault injection, PYTHONHASHSEED=0)',
             'baseline_off_cmd': 'cd /repo && /venv/bin/python -m pytest -q -p no:cacheprovider --timeout=900 -n 16',
             'source_commits': [],
             'add_only': True,
         },
-        'engines': [{'name': 'mc', 'path': 'mc/', 'serves_properties': sorted(CHECKS),
+        'engines': [{'name': 'mc', 'path': 'mc/', 'serves_properties': sorted(CLAIMED),
                      'kind_free_text': 'hand-written explicit-state / stateless bounded exhaustive explorer in Python '
-                                       'over the real asn1tools code, with independent reference models'}],
+                                       'over the real asn1tools code, with independent reference models '
+                                       '(mc/ref_*.py, mc/tlv*.py, mc/lexer.py), a baton thread scheduler (mc/sched.py), '
+                                       'a cache-directory explorer with strace crash injection (mc/cachefs.py) and a '
+                                       'generated-C driver under ASan/UBSan (mc/cdriver.py)'}],
         'checks': checks,
         'not_applicable': na,
-        'notes': 'All checks run with /venv/bin/python against /repo\'s current working tree. Known genuine defects: '
-                 'known_findings.json. See DESIGN.md.',
+        'notes': 'All checks run with /venv/bin/python against /repo\'s current working tree (override: VERIF_REPO). '
+                 'Known genuine defects: known/*.json + known_findings.json; seeded changes and which check catches '
+                 'them: seeded/, DESIGN.md section 7.',
     }
     with open(os.path.join(VERIF, 'MANIFEST.json'), 'w') as f:
         json.dump(m, f, indent=1)
